@@ -35,7 +35,7 @@ def plan(tier, seed):
                 'floor': {'side_goals_in_the_middle': 1, 'distinct_nontrivial': 4000, 'outer_first_orders': 6000, 'values_checked_after_close': 30000,
                           'to_python_checked': 30000, 'api_cases': 3000, 'compiled_cases': 8000,
                           'findall_exports': 1500, 'assert_exports': 1500}}
-    return {'n': 400000, 'deadline': 540,
+    return {'n': 600000, 'deadline': 540,
             'floor': {'side_goals_in_the_middle': 1, 'distinct_nontrivial': 80000, 'outer_first_orders': 100000, 'values_checked_after_close': 600000,
                       'to_python_checked': 600000, 'api_cases': 60000, 'compiled_cases': 150000,
                       'findall_exports': 30000, 'assert_exports': 30000}}
